@@ -580,6 +580,10 @@ def c11(ctx):
     # with FTZ / DAZ set by the caller, in all four rounding modes; only the environment facts are judged (FEnv.tla)
     ctx.assumptions.append('environment preservation is observed around every call of every family (FTZ = DAZ = 0, four rounding modes) and, in the fenv family, around every float operation with FTZ and/or DAZ set by the caller')
     runner.lane_facts(ctx, 'drv_fp.cpp', 'fenv', FP_GROUPS)
+    # "whichever of the four rounding modes is current at the call": also when the program wrote MXCSR alone and the x87
+    # control word still holds another mode (FEnv!CurrentMode)
+    ctx.assumptions.append('nearbyint / rint are called again with the x87 rounding control deliberately different from MXCSR (quick: one derangement of the four modes, thorough: all twelve unequal pairs); the expected result follows MXCSR, as the C library does for float and double on this platform')
+    runner.lane_facts(ctx, 'drv_fp.cpp', 'fsplit', FP_GROUPS)
     if ctx.tier == 'thorough':
         ctx.assumptions.append('thorough: all 2^32 binary32 patterns of ceil/floor/trunc/round/nearbyint/rint/sqrt (RN and RD) and of logb/frac/abs/neg/classification swept natively against <cmath> in the quick configurations; disagreements (other than the sign of a zero computed from a non-zero input) are judged by TLC')
         saved = ctx.cfgs
@@ -608,7 +612,7 @@ def c16(ctx):
     def conf():
         for fam in ('bitfn', 'select', 'bits', 'mixcmp'):
             runner.lane_facts(ctx, 'drv_int.cpp', fam, INT_GROUPS, cfgs=cfgs, run_env=env)
-        for fam in ('farith', 'fround', 'fmanip', 'fclass', 'fselect'):
+        for fam in ('farith', 'fround', 'fsplit', 'fmanip', 'fclass', 'fselect'):
             runner.lane_facts(ctx, 'drv_fp.cpp', fam, FP_GROUPS, cfgs=cfgs, run_env=env)
 
     def mc():
